@@ -184,7 +184,8 @@ def gen_key(rng, fmt, profile, level="simfile"):
         k = rng.choice(MULTI)
     elif r < 0.72:
         k = rng.choice(["VERSION", "BGCHANGES2", "X", "", "NOTES2", "NOTES", "NOTES3", "NOTESKIN",
-                        "ATTAC\u212aS", "\u212aEYSOUNDS", "ATTACKS2", "XDISPLAYBPM", "NOTEDATA2"])
+                        "ATTAC\u212aS", "\u212aEYSOUNDS", "ATTACKS2", "XDISPLAYBPM", "NOTEDATA2",
+                        "VERS\u0130ON", "VERSIONS", "VERSION ", "D\u0130SPLAYBPM", "T\u0130TLE"])
     elif r < 0.76 and not profile.startswith("enc:") and profile != "plain":
         k = "".join(rng.choice(UPPER_STABLE + ["A", "Z", "_"]) for _ in range(rng.randint(1, 4)))
     elif r < 0.78 and not profile.startswith("enc:"):
@@ -256,7 +257,11 @@ def gen_ssc_chart_spec(rng, profile, hazards=True):
     return {"from": "items", "items": items}
 
 
-def gen_chart_spec(rng, fmt, profile):
+def gen_chart_spec(rng, fmt, profile, nchart_hint=0):
+    if nchart_hint > 0 and rng.random() < 0.1:
+        # a copy of a chart that is already in the list - or the very same object once more
+        return {"from": "copyof", "i": rng.randint(0, nchart_hint - 1),
+                "how": rng.choice(["deepcopy", "copy", "pickle", "same"])}
     return gen_sm_chart_spec(rng, profile) if fmt == "sm" else gen_ssc_chart_spec(rng, profile)
 
 
@@ -313,13 +318,13 @@ def gen_edit_op(rng, fmt, profile, nchart_hint, domain="roundtrip", weights=None
     if kind == "iter":
         return {"op": "iter"}
     if kind == "charts_append":
-        return {"op": kind, "chart": gen_chart_spec(rng, fmt, profile)}
+        return {"op": kind, "chart": gen_chart_spec(rng, fmt, profile, nchart_hint)}
     if kind == "charts_insert":
         return {"op": kind, "pos": rng.randint(0, max(0, nchart_hint)),
-                "chart": gen_chart_spec(rng, fmt, profile)}
+                "chart": gen_chart_spec(rng, fmt, profile, nchart_hint)}
     if kind == "charts_replace":
         return {"op": kind, "i": rng.randint(0, max(0, nchart_hint - 1)),
-                "chart": gen_chart_spec(rng, fmt, profile)}
+                "chart": gen_chart_spec(rng, fmt, profile, nchart_hint)}
     if kind == "charts_remove":
         return {"op": kind, "i": rng.randint(0, max(0, nchart_hint - 1))}
     if kind == "charts_swap":
